@@ -82,6 +82,9 @@ def check_cfg(ctx, fx, cfg):
         reached |= set(graph.reach(fx, l, depth=4))
     bad = sorted(makers & reached)
     ctx.require(not bad and makers, "R07.6", "identity-kept@" + cfg, "a running actor (its loop or a restart strategy) can reach code that creates a new Context / mailbox: restart would change the actor's identity or mailbox: %s" % bad, site=fx.fn(bad[0])["loc"] if bad and fx.fn(bad[0]) else None, detail={"constructors": sorted(makers), "reachable_from_live_code": len(reached)})
+    # ... and the id of the existing context is never reassigned (shared with C09)
+    from props import c09 as _c09
+    _c09.check_id_fixed(ctx, fx, "R07.6", "id-fixed-at-birth@" + cfg)
     # R07.5 messages before / after the request are ordered against it by the actor's single FIFO queue
     from props.c01 import check_single_queue
     check_single_queue(ctx, fx, cfg, "R07.5", "R07.5")
